@@ -24,6 +24,28 @@ CHECK_DEADLOCK FALSE
 
 ALL_BASES = ("b1", "b2", "b3", "b4", "b5", "b6")
 
+OE_CFG = """SPECIFICATION Spec
+CONSTANT BaseIds = {"o1", "o2", "o3", "o4", "o5", "o6"}
+CONSTANT MaxEdits2 = %d
+CONSTANT MaxEdits3 = %d
+CONSTANT EMIT = TRUE
+INVARIANT TypeOK
+INVARIANT ClassTotal
+INVARIANT Budget
+CONSTRAINT Emit
+CHECK_DEADLOCK FALSE
+"""
+
+
+def enumerate_output_edits(max2, max3, chk=None):
+    """Run TLC on OutputEdits; every (base, per-output edits of both sides, list edits) within the bounds."""
+    r = tlc.run("OutputEdits", OE_CFG % (max2, max3), workers=1, timeout=1800, name="OutputEdits-%d-%d" % (max2, max3), xmx="8g")
+    if r.invariant_violated or r.error:
+        raise tlc.TLCError("OutputEdits: %s\n%s" % (r.error, r.out[-2000:]))
+    if chk is not None:
+        chk.add_model(r, "OutputEdits MaxEdits2=%d MaxEdits3=%d" % (max2, max3))
+    return list(r.json_lines("OUTEDIT"))
+
 
 def enumerate_edits(maxl, maxr, bases=ALL_BASES, chk=None, simulate=None, depth=None, seed=None):
     """Run TLC on NotebookEdits; return list of abstract triples (dicts), deduplicated."""
@@ -89,8 +111,42 @@ class Corpus(object):
         return p, labels
 
     # ---- triples -----------------------------------------------------------
+    def output_edit_triples(self, n, salt="t", bounds=None):
+        """[(name, base, local, remote, info)] from spec/OutputEdits.tla: a stratified seeded sample of n cases
+        (strata = the model's per-output classes + whether the list itself is edited); n = None: all."""
+        r = common.rng("corpus-oe-" + salt)
+        max2, max3 = bounds or ((4, 2) if self.chk.quick else (6, 3))
+        cases = enumerate_output_edits(max2, max3, self.chk)
+        self.chk.notes.setdefault("corpus", {})["tlc_enumerated_output_edit_cases"] = len(cases)
+        if n is not None and n < len(cases):
+            r.shuffle(cases)
+            buckets = {}
+            for c in cases:
+                buckets.setdefault((tuple(c["classes"]), c["ll"] != "none" or c["rl"] != "none"), []).append(c)
+            keys = sorted(buckets, key=repr)
+            r.shuffle(keys)
+            picked = []
+            while len(picked) < n and keys:
+                for k in list(keys):
+                    if buckets[k]:
+                        picked.append(buckets[k].pop())
+                        if len(picked) >= n:
+                            break
+                    else:
+                        keys.remove(k)
+            cases = picked
+        out = []
+        for k, c in enumerate(cases):
+            b, l, rr = concretize.output_edit_triple(c, k)
+            if not all(concretize.is_valid(x) for x in (b, l, rr)):
+                self.discarded += 1
+                continue
+            out.append(("x%d" % k, b, l, rr, {"source": "output-edits", "script": c,
+                                               "abstract": {"output_edits": c, "k": k % 4}}))
+        return out
+
     def triples(self, n_enum=None, n_random=0, random_maxedits=4, salt="t", bases=ALL_BASES,
-                want=lambda t: True):
+                want=lambda t: True, n_outedits=None):
         """[(name, base, local, remote, info)] : TLC-enumerated (1 edit per side, all bases;
         seeded sample of n_enum if given) plus n_random random-walk triples."""
         r = common.rng("corpus-" + salt)
@@ -144,6 +200,11 @@ class Corpus(object):
         for k, (b, l, rr, label) in enumerate(concretize.output_scenarios(r, max(0, n_random // 5))):
             out.append(("o%d" % k, b, l, rr, {"source": "output-scenario", "script": label,
                                                "abstract": {"scenario": label, "k": k, "cells": len(b.cells)}}))
+        # per-output edits of one cell's outputs (spec/OutputEdits.tla); default: a third of the random budget
+        if n_outedits is None:
+            n_outedits = max(n_random // 3, 60) if n_random else 0
+        if n_outedits:
+            out += self.output_edit_triples(n_outedits, salt)
         self.chk.notes["corpus"]["discarded_invalid"] = self.discarded
         return out
 
